@@ -8,7 +8,7 @@ for d in seeded/${1:-*}/; do
   if ! git -C /repo apply --check /verif/$d/patch.diff 2>/dev/null; then echo "$id: PATCH DOES NOT APPLY"; continue; fi
   git -C /repo apply /verif/$d/patch.diff
   out=$(timeout 600 ./check $prop 2>&1); code=$?
-  git -C /repo checkout -- .
+  git -C /repo reset -q --hard HEAD
   nv=$(echo "$out" | grep -c "^VIOLATION"); nrep=$(echo "$out" | grep "^VIOLATION" | grep -vc "no-failing-input-found")
   echo "$id: exit=$code violations=$nv with-replayed-input=$nrep $(echo "$out" | grep -E '^(UNDECIDED|CHECKER)' | head -1 | cut -c1-120)"
 done
